@@ -664,10 +664,10 @@ impl Property for C03 {
         FAULTS
     }
     fn lattice_size(&self) -> u32 {
-        32 * (STACK_SHAPES - 1)
+        8 * crate::dev::N_DISC * (STACK_SHAPES - 1)
     }
     fn lattice_desc(&self) -> &'static str {
-        "capability set (8) x consumption discipline (4) x adapter stack shape (84 reachable kind sequences of depth 0..=3; three colour conversions are impossible on the 3-level colour chain)"
+        "capability set (8) x consumption discipline (5) x adapter stack shape (84 reachable kind sequences of depth 0..=3; three colour conversions are impossible on the 3-level colour chain)"
     }
     fn sub_eval_name(&self) -> &'static str {
         "operations_checked"
